@@ -829,6 +829,13 @@ private:"""),
          old="            case feature_type::sclass: columns = feature.classes() - 1; break;", new="            case feature_type::sclass: columns = feature.classes(); break;"),
     dict(property="C08", name="sclass-identity-colsize", rule="R-C08-7", file="include/nano/generator/elemwise_identity.h", tu="src/generator/elemwise_identity.cpp",
          old="        const auto colsize = mapped_classes(ifeature) - 1;", new="        const auto colsize = mapped_classes(ifeature);"),
+    dict(property="C03", name="ellipsoid-inflation-denominator", rule="R-C03-9", file="src/solver/ellipsoid.cpp",
+         old="            Hm.noalias() = (n * n) / (n * n - 1) * (1 - alpha * alpha) *", new="            Hm.noalias() = (n * n) / (n * n + 1) * (1 - alpha * alpha) *"),
+    dict(property="C03", name="ellipsoid-centre-step-ignores-dimension", rule="R-C03-9", file="src/solver/ellipsoid.cpp",
+         old="            xv.noalias() = xv - (1 + n * alpha) / (n + 1) * (Hm * gv) / std::sqrt(gHg);", new="            xv.noalias() = xv - (1 + alpha) / (n + 1) * (Hm * gv) / std::sqrt(gHg);"),
+    dict(property="C03", name="ellipsoid-integer-inflation-factor", rule="R-C03-9", file="src/solver/ellipsoid.cpp",
+         old="            Hm.noalias() = (n * n) / (n * n - 1) * (1 - alpha * alpha) *",
+         new="            Hm.noalias() = static_cast<scalar_t>(function.size() * function.size() / (function.size() * function.size() - 1)) * (1 - alpha * alpha) *"),
     # ---- C10
     dict(property="C10", name="accumulator-r1-sign", rule="R-C10-1", file="include/nano/wlearner/accumulator.h", tu="src/wlearner/accumulator.cpp",
          old="        r1(bin) -= vgrad;", new="        r1(bin) += vgrad;"),
@@ -1257,4 +1264,13 @@ BENIGN = [
 """),
     dict(property="C16", name="remove-if-second-loop-starts-after-first-removed", file="include/nano/tensor/algorithm.h", tu="src/solver/gsample/sampler.cpp",
          old="    for (auto curr = last; curr < size; ++curr)", new="    for (auto curr = last + 1; curr < size; ++curr)"),
+    dict(property="C03", name="ellipsoid-update-with-named-coefficients", file="src/solver/ellipsoid.cpp",
+         old="""            xv.noalias() = xv - (1 + n * alpha) / (n + 1) * (Hm * gv) / std::sqrt(gHg);
+            Hm.noalias() = (n * n) / (n * n - 1) * (1 - alpha * alpha) *
+                           (Hm - 2 * (1 + n * alpha) / (n + 1) / (1 + alpha) * (Hm * gv * gv.transpose() * Hm) / gHg);""",
+         new="""            const auto tau   = (1.0 + n * alpha) / (n + 1.0);
+            const auto delta = n * n / (n * n - 1.0) * (1.0 - alpha * alpha);
+            const auto sigma = 2.0 * tau / (1.0 + alpha);
+            xv.noalias() = xv - tau * (Hm * gv) / std::sqrt(gHg);
+            Hm.noalias() = delta * (Hm - sigma * (Hm * gv * gv.transpose() * Hm) / gHg);"""),
 ]
